@@ -533,14 +533,30 @@ class Chopper:
         npulses:
             Number of pulses to rotate the chopper for.
         """
-        tpulse = 1.0 / pulse_frequency
-        topen = disk_chopper.time_offset_open(pulse_frequency=pulse_frequency)
-        tclose = disk_chopper.time_offset_close(pulse_frequency=pulse_frequency)
-        offsets = sc.arange('pulse', npulses) * tpulse
+        # Also checks that the chopper is in phase with the source.
+        rotations_per_pulse = disk_chopper._source_phase_factor(pulse_frequency)
+        frequency = abs(disk_chopper.frequency)
+        pulses_per_rotation = max(
+            round((pulse_frequency.to(unit=frequency.unit) / frequency).value), 1
+        )
+        # The chopper keeps rotating uniformly while the source emits `npulses`
+        # pulses. Count the rotations during that time (the last may be partial)
+        # instead of repeating the openings of the first pulse: those would be
+        # listed twice if the chopper is faster than the source and would not be
+        # openings at all if it is slower.
+        n_rotations = -(-npulses * rotations_per_pulse // pulses_per_rotation)
+        if disk_chopper.is_clockwise:
+            open_edges, close_edges = disk_chopper.slit_begin, disk_chopper.slit_end
+        else:
+            open_edges, close_edges = disk_chopper.slit_end, disk_chopper.slit_begin
         return cls(
             distance=sc.norm(disk_chopper.axle_position),
-            time_open=(offsets + topen).flatten(to=topen.dim),
-            time_close=(offsets + tclose).flatten(to=tclose.dim),
+            time_open=disk_chopper.time_offset_angle_at_beam(
+                angle=open_edges, n_repetitions=n_rotations
+            ),
+            time_close=disk_chopper.time_offset_angle_at_beam(
+                angle=close_edges, n_repetitions=n_rotations
+            ),
         )
 
 
